@@ -32,6 +32,10 @@ def cases(draw, tier):
                         iri_like_literals=odd, quirks=draw(gg.quirk_set(one_in=4)) + (["same_local_classes"] if draw(st.integers(0, 9)) == 0 else [])))
     cfg = draw(gg.switches())
     cfg["instances_report_mode"] = "mixed"
+    if draw(st.integers(0, 5)) == 0:
+        # fan-in graphs: incoming values of several kinds with UNEQUAL frequencies (no tie), subjects with different class sets
+        g = draw(gg.fan_graph())
+        cfg["inverse_paths"] = draw(st.sampled_from([True, True, True, False]))
     if draw(st.integers(0, 3)) == 0:
         cfg["detect_minimal_iri"] = True
     target = draw(common.target_spec(g))
